@@ -22,10 +22,12 @@
    (2 v r s x<hash>)                      ValidateSignatureValues, frontier and homestead (the hash is
                                           used by the Go oracle: Ecrecover / SigToPub / VerifySignature)
    (3 x<hash> x<key>), (9 v r s x<hash>)  curve-only cases (crypto.Sign round trip; recovery ids 4..7): ()
+   (8 v r s x<hash>)                      crypto.Ecrecover vs the executable curve Crypto/Secp.v (a few per run)
+                                          -> ((x y)) | ()
    (4 cfg num|() time) MakeSigner, (5 cfg) LatestSigner, (6 ()|(chain)) LatestSignerForChainID
         -> (signer) | () when the constructor panics
    (7 v r s maybeProtected)               deriveChainId, isProtectedV, sanityCheckSignature *)
-From GV Require Import Lib.Sx Lib.Bytes Rlp.Item Keccak.Sponge Crypto.Signer.
+From GV Require Import Lib.Sx Lib.Bytes Rlp.Item Keccak.Sponge Crypto.Signer Crypto.Secp.
 Local Open Scope Z_scope.
 
 Definition bind {A B} (o : option A) (f : A -> option B) : option B :=
@@ -192,6 +194,12 @@ Definition C03_run (c : sx) : sx :=
   (* kinds 3 and 9 exercise the curve only (Go oracle + backend comparison) *)
   | SL [SI 3; SB _; SB _] => SL []
   | SL [SI 9; SI _; SI _; SI _; SB _] => SL []
+  (* kind 8: the executable curve Crypto/Secp.v as a third implementation of Ecrecover *)
+  | SL [SI 8; SI v; SI r; SI s; SB h] =>
+      match sp_recover (Z.of_N (be_decode h)) r s v with
+      | Some (x, y) => SL [SL [SI x; SI y]]
+      | None => SL []
+      end
   | SL [SI 4; cfg; num; time] =>
       match d_cfg cfg, d_opt sx_Z num, sx_N time with
       | Some cfg, Some num, Some time => e_signer (make_signer cfg num time)
